@@ -40,7 +40,9 @@ MANIFEST = dict(
 
 STALE_KEY = "stale-molalities-after-revise-guesses"
 STALE_REPLAY = "SOLUTION 1\n temp 5\n" + gens.TAIL
-QUICK_DBS = ["phreeqc.dat", "wateq4f.dat", "minteq.v4.dat"]
+ISO_KEY = "isotope-initial-solution-total-is-major-isotope"
+ISO_REPLAY = "SOLUTION 1\n D 0\n" + gens.TAIL
+QUICK_DBS = ["phreeqc.dat", "wateq4f.dat", "minteq.v4.dat", "minteq.dat"]
 PITZER_SIT = {"pitzer.dat", "sit.dat", "frezchem.dat", "ColdChem.dat", "Concrete_PZ.dat"}
 TOL_LOG = 1e-9
 TOL_REL = 1e-7
@@ -104,7 +106,7 @@ def parse_harness(out):
     for line in out.splitlines():
         if line.startswith("dump "):
             w = line.split()
-            dump = {"idx": int(w[2]), "state": int(w[3].split("=")[1]), "u": [], "m": [], "pex": {}, "s": [], "p": [], "r": {},
+            dump = {"idx": int(w[2]), "state": int(w[3].split("=")[1]), "u": [], "m": [], "mi": [], "pex": {}, "s": [], "p": [], "r": {},
                     "rt": {}, "rp": {}, "rk": {}, "rkp": {}}
             if cur is None:
                 cur = {"dumps": [], "sel": [], "rc": None, "err": ""}
@@ -130,13 +132,16 @@ def parse_harness(out):
             elif t == "m":
                 dump["m"].append({"elt": w[1], "s": w[2], "in": int(w[3]), "total": unhexd(w[4]), "pe": w[5], "prim": w[6],
                                   "m0": w[7], "primary": int(w[8]), "total_primary": unhexd(w[9])})
+            elif t == "mi":
+                dump["mi"].append({"name": w[1], "elt": w[2], "minor": int(w[3]), "moles": unhexd(w[4])})
             elif t == "pe":
                 dump["pex"][w[1]] = parse_rxn(parts[1:])
             elif t == "s":
                 toks, k = parse_rxn(parts[1:])
                 dump["s"].append({"name": w[1], "type": int(w[2]), "z": unhexd(w[3]), "lm": unhexd(w[4]), "lg": unhexd(w[5]),
                                   "la": unhexd(w[6]), "lk": unhexd(w[7]), "moles": unhexd(w[8]), "alk": unhexd(w[9]),
-                                  "gflag": int(w[10]), "rx": toks, "k": k})
+                                  "gflag": int(w[10]), "rx": toks, "k": k,
+                                  "h": unhexd(w[12]) if len(w) > 13 else None, "o": unhexd(w[13]) if len(w) > 13 else None})
             elif t == "p":
                 toks, k = parse_rxn(parts[1:])
                 dump["p"].append({"name": w[1], "lk": unhexd(w[2]), "rx": toks, "k": k})
@@ -289,6 +294,7 @@ def judge(d, mc, stats):
     if stale:
         stats["stale_states"] += 1
     found = []
+    iso_found = []
     if mc.get("bad"):
         tie.append(("driver", "bad-line", mc["bad"][:2]))
     for m in d["m"]:
@@ -429,7 +435,15 @@ def judge(d, mc, stats):
         stats["sums"] += 1
         terms = sum(abs(s["moles"]) for s in aq if s["name"] != "H2O") if e not in ("H", "O") else abs(mt)
         if not close(mt, t * W, TOL_REL, 1e-12 * terms + 1e-300):
-            orc.append(("sum", e, f"TOT({e})*water = {t * W!r}, sum over species {mt!r}"))
+            # ISOTOPES databases: add_isotopes() runs between sum_species() and the punch of an INITIAL solution and
+            # overwrites total_h_x / total_o_x with the moles of the major isotope; the minor isotopes (D, T, [18O]) it
+            # sets aside are kept in master_isotope[].moles
+            aside = sum(x["moles"] for x in d["mi"] if x["minor"] and x["elt"] == e)
+            if e in ("H", "O") and d["state"] == 1 and aside > 0 and close(mt, t * W + aside, TOL_REL):
+                iso_found.append(("sum", e, f"TOT({e})*water = {t * W!r} is the major isotope only; species sum {mt!r} = that + "
+                                            f"{aside!r} mol set aside for the minor isotopes given in the SOLUTION"))
+            else:
+                orc.append(("sum", e, f"TOT({e})*water = {t * W!r}, sum over species {mt!r}"))
     # (e) pH, SI
     hp = smap.get("H+")
     if hp is not None:
@@ -472,6 +486,9 @@ def judge(d, mc, stats):
     if found:
         stats["stale_states_excused"] += 1
         d["finding"] = found
+    if iso_found:
+        stats["isotope_initial_totals"] += 1
+        d["iso_finding"] = iso_found
     return orc, tie
 
 
@@ -507,7 +524,8 @@ def new_stats():
     return {k: 0 for k in ("rx", "rx_nontrivial", "lk", "lk_analytic", "lk_vanthoff", "res", "res_missing", "res_altpe_skipped",
                            "readouts", "sums", "si", "si_skipped", "gate", "dumps", "runs", "runs_error", "runs_nodump",
                            "above_1atm", "rewritten_valence_masters", "rewritten_relative_to_switched_basis",
-                           "states_with_redox_couple", "stale_states", "stale_states_excused", "couples")} | {"res_max": 0.0, "seen": set()}
+                           "states_with_redox_couple", "stale_states", "stale_states_excused", "couples", "isotope_initial_totals",
+                           "oracle_failures")} | {"res_max": 0.0, "seen": set()}
 
 
 # ------------------------------------------------------------------------------------------ database tie
@@ -658,7 +676,7 @@ def check_runs(ctx, exe, dbname, db, dblines, texts, stats):
     for i, run in enumerate(runs):
         if run["rc"] == 0:
             for di, o in judge_selected_output(run, stats):
-                findings.append((i, di, [o], [], []))
+                findings.append((i, di, [o], [], [], []))
     if not index:
         return findings, runs
     out = pmodel(ctx, "\n".join(mlines) + "\n")
@@ -667,11 +685,11 @@ def check_runs(ctx, exe, dbname, db, dblines, texts, stats):
         mc = cases.get(cid)
         stats["dumps"] += 1
         if mc is None or "gate" not in mc:
-            findings.append((i, d["idx"], [], [("driver", "no-output", cid)], []))
+            findings.append((i, d["idx"], [], [("driver", "no-output", cid)], [], []))
             continue
         orc, tie = judge(d, mc, stats)
-        if orc or tie or d.get("finding"):
-            findings.append((i, d["idx"], orc, tie, d.get("finding") or []))
+        if orc or tie or d.get("finding") or d.get("iso_finding"):
+            findings.append((i, d["idx"], orc, tie, d.get("finding") or [], d.get("iso_finding") or []))
     return findings, runs
 
 
@@ -684,7 +702,7 @@ def run_db(ctx, exe, dbname, nruns, seed_rng, stats, cov, sweep=False):
         texts.append(t)
         metas.append(m)
     if sweep:
-        sw = gens.gen_sweep(db) + ([STALE_REPLAY] if dbname == "phreeqc.dat" else [])
+        sw = gens.gen_sweep(db) + ([STALE_REPLAY] if dbname == "phreeqc.dat" else []) + ([ISO_REPLAY] if dbname == "iso.dat" else [])
         texts += sw
         cov["kinds"]["element-sweep"] = cov["kinds"].get("element-sweep", 0) + len(sw)
     for m in metas:
@@ -726,8 +744,14 @@ def handle_findings(ctx, exe, dbname, db, dblines, results):
                               {"db": dbname, "inputs": tx[f[1]:f[1] + 1], "kind": "crash"})
                 n_or += 1
                 continue
-            i, di, orc, tie, found = f
+            i, di, orc, tie, found, iso_found = f
             text = tx[i]
+            if iso_found:
+                ctx.finding(ISO_KEY,
+                            "ISOTOPES database: add_isotopes() replaces total H / total O by the major-isotope moles before the "
+                            "initial solution is punched: " + f"{dbname}: {iso_found[0][2]}",
+                            {"db": dbname, "input": ISO_REPLAY if dbname == "iso.dat" else text, "dump": di,
+                             "failures": [list(map(str, x)) for x in iso_found[:4]]})
             if found:
                 ctx.finding(STALE_KEY,
                             "model() accepted a state whose molalities were computed before the last gammas() call (end of "
@@ -736,7 +760,12 @@ def handle_findings(ctx, exe, dbname, db, dblines, results):
                              "failures": [list(map(str, x)) for x in found[:6]]})
             if orc:
                 n_or += 1
-                if len(ctx.violations) < 5:
+                kinds = getattr(ctx, "_orc_kinds", None)
+                if kinds is None:
+                    kinds = ctx._orc_kinds = {}
+                kk = (dbname, orc[0][0])
+                kinds[kk] = kinds.get(kk, 0) + 1
+                if kinds[kk] <= 2 and sum(1 for v in kinds.values() if v) <= 12:
                     small = shrink_input(ctx, exe, dbname, db, dblines, text, orc[0][0])
                     ctx.violation(f"{dbname}: {orc[0][0]} {orc[0][1]}: {orc[0][2]}",
                                   {"db": dbname, "input": small, "dump": di, "failures": [list(map(str, x)) for x in orc[:6]],
@@ -845,6 +874,9 @@ def _run(ctx, ok, exe):
         if stats["dumps"] and len(ctx.cov["samples"]) < 3:
             for k, tx, findings in results[:1]:
                 ctx.sample({"db": n, "input": tx[0][:400]})
+    stats["oracle_failures"] = tot_or
+    if tot_or and not ctx.violations:
+        ctx.violation(f"{tot_or} oracle failures were counted but none recorded", {"kinds": {f"{a}:{b}": c for (a, b), c in getattr(ctx, "_orc_kinds", {}).items()}}, found_input=False)
     if ctx.tie_breaks and not ctx.violations:
         tb = ctx.tie_breaks[0]
         ctx.violation(f"model and engine disagree ({tb['ties'][0]}) while every direct oracle holds", dict(tb, kind="tie"),
